@@ -347,7 +347,11 @@ def main(argv):
                        '_dis itself (380 lines over heterogeneous dictionaries) is outside any verifier available here')
     run.samples = ['%s %s (%d strings, e.g. %s)' % (k[0], k[1], v[0], v[1]) for k, v in list(sorted(groups.items()))[:6]] or ['no disagreement']
     run.trust('specs/x86dec.py (IA-32 decoder written from the SDM; MMX/SSE not covered)')
-    run.assume('strings whose opcode is outside the spec tables or that carry a superfluous prefix are outside the compared domain')
+    run.assume('strings whose opcode is outside the spec tables or that carry a superfluous prefix are outside the compared domain of the spec decoder')
+    # MMX/SSE maps: the reference decoder is GNU objdump, executed
+    from checks import C01sse
+    C01sse.ob_sse(run, tier)
+    run.assume('MMX/SSE strings: compared only when objdump accepts the string as one instruction without a superfluous prefix')
     return run.finish()
 
 if __name__ == '__main__':
